@@ -30,6 +30,8 @@ RULE = (
     "expected for function scopes without function information. "
     "non-trivial = >=1 application compared; distinct = (driver, scope "
     "kinds x positions, function info)."
+    " 25% of the RewritingContext cases hand over the caller's own"
+    " Function objects after the function tables were dropped."
 )
 ASSUMPTIONS = [
     "exit blocks are derived from the input listing's control flow (return, or a non-call edge leaving the function)",
